@@ -108,6 +108,7 @@ func (r *RibEntry) findLongestPrefixEntryEnc(name enc.Name) *RibEntry {
 }
 
 func (r *RibEntry) pruneIfEmpty() {
+	verifMutatingM(&Rib.mutex, "rib.prune")
 	for entry := r; entry.parent != nil && len(entry.children) == 0 && len(entry.routes) == 0; entry = entry.parent {
 		// Remove from parent's children
 		delete(entry.parent.children, entry)
@@ -127,6 +128,7 @@ func (r *RibEntry) updateNexthopsEnc() {
 }
 
 func (r *RibEntry) updateOwnNexthopsEnc() {
+	verifMutatingM(&Rib.mutex, "rib.flatten")
 	FibStrategyTable.ClearNextHopsEnc(r.Name)
 
 	// An entry without routes contributes nothing to the FIB
@@ -274,6 +276,7 @@ func (r *RibEntry) CleanUpFace(faceId uint64) {
 	}
 
 	// Remove every route of this face (there may be one per origin)
+	verifMutatingM(&Rib.mutex, "rib.cleanup")
 	remaining := make([]*Route, 0, len(r.routes))
 	for _, route := range r.routes {
 		if route.FaceID == faceId {
